@@ -4,4 +4,4 @@
 def is_control_exception(e):
     from gsv.engine.sym import Unsupported, PathAbort
     from gsv.kernel import Reject
-    return isinstance(e, (Unsupported, PathAbort, Reject, KeyboardInterrupt, MemoryError, RecursionError))
+    return isinstance(e, (Unsupported, PathAbort, Reject, KeyboardInterrupt, MemoryError, RecursionError, TimeoutError))
